@@ -78,6 +78,11 @@ def make_silent(frontend, framing, why):
             ctx = SL.server_context(None, single=False, units=[(1, slave)])
             unit, kw = 0, {"broadcast": True}
             pdu = bytes([6]) + b1
+        elif why == "broadcast-fail":
+            # a broadcast whose execution fails (the datastore raises): still no response
+            ctx = SL.server_context(None, single=False, units=[(1, _Failing())])
+            unit, kw = 0, {"broadcast": True}
+            pdu = bytes([6]) + b1
         elif why == "ignore-missing":
             assume(0 <= u <= 255)
             assume(u != 1)
@@ -217,7 +222,7 @@ def obligations(tier):
         fr = "rtu" if fe == "sync-serial" else "tcp"
         whys = ["listen-only", "ignore-missing"]
         if fe.startswith(("sync", "asyncio")):
-            whys.append("broadcast")                   # the Twisted front-end has no broadcast option
+            whys += ["broadcast", "broadcast-fail"]    # the Twisted front-end has no broadcast option
         for why in whys:
             out.append(Obl("silent.%s.%s.%s" % (fe, fr, why), make_silent(fe, fr, why), timeout=T, contracts=CONTRACTS[fr], lemmas=LEMMAS[fr],
                            whole_finding="KF-twisted-udp-listen-only-response" if (fe, why) == ("twisted-udp", "listen-only") else None,
